@@ -521,12 +521,73 @@ fn mode_proof(args: &Args) {
             continue;
         }
         let mut r = Rng(case_seed);
-        let m = gen_model(&mut r, &cfg);
+        let mut m = gen_model(&mut r, &cfg);
         let mut setup = Setup::random(&mut r);
         setup.opts.resolver_uip = true; // proof logging is meaningful with learning
         let kind = r.below(3) as u8;
+        // some literal variables become literals of a predicate over an earlier integer variable;
+        // the equivalence is an ordinary (reified clause) constraint of the model
+        let mut lit_defs: Vec<(usize, Atom)> = vec![];
+        if r.chance(1, 2) {
+            for (ri, d) in m.vars.iter().enumerate() {
+                if d.kind != VarKind::Lit || !r.chance(2, 3) {
+                    continue;
+                }
+                let candidates: Vec<usize> = (0..ri).filter(|x| m.vars[*x].kind != VarKind::Lit && m.vars[*x].values.len() >= 2).collect();
+                if candidates.is_empty() {
+                    continue;
+                }
+                let x = *r.pick(&candidates);
+                let vals = &m.vars[x].values;
+                let v = vals[1 + r.usize(vals.len() - 1)];
+                let a = match r.below(3) {
+                    0 => Atom::Ge(x, v),
+                    1 => Atom::Le(x, v - 1),
+                    _ => Atom::Eq(x, v),
+                };
+                lit_defs.push((ri, a));
+            }
+            // the definitions are the first constraints of the model (`litdefs n` tells the checker)
+            for (k, (ri, a)) in lit_defs.iter().enumerate() {
+                let id = |x: usize| View { scale: 1, offset: 0, var: x };
+                let inner = match *a {
+                    Atom::Ge(x, v) => Cons::LinLe(vec![View { scale: -1, offset: 0, var: x }], -v),
+                    Atom::Le(x, v) => Cons::LinLe(vec![id(x)], v),
+                    Atom::Eq(x, v) => Cons::LinEq(vec![id(x)], v),
+                    Atom::Ne(x, v) => Cons::LinNe(vec![id(x)], v),
+                };
+                m.cons.insert(k, Cons::Reif(Atom::Ge(*ri, 1), Box::new(inner)));
+            }
+        }
+        // constraints which reason with disequalities over a defined literal ([r != 0] / [r != 1] are
+        // written to the proof through a separate arm of the substitution)
+        for (ri, _) in &lit_defs {
+            if !r.chance(1, 2) {
+                continue;
+            }
+            let others: Vec<usize> = (0..m.vars.len()).filter(|x| x != ri).collect();
+            let y = *r.pick(&others);
+            let yv = *r.pick(&m.vars[y].values);
+            let rv = View { scale: 1, offset: 0, var: *ri };
+            let yw = View { scale: 1, offset: 0, var: y };
+            let extra = match r.below(4) {
+                0 => Cons::Clause(vec![Atom::Eq(*ri, r.below(2) as i32), if r.chance(1, 2) { Atom::Ne(y, yv) } else { Atom::Le(y, yv) }]),
+                1 => Cons::LinNe(vec![rv, yw], yv + r.below(2) as i32),
+                2 => Cons::AllDiff(vec![rv, View { scale: 1, offset: -yv + r.below(2) as i32, var: y }]),
+                _ => Cons::Clause(vec![Atom::Ne(*ri, r.below(2) as i32), Atom::Ne(y, yv)]),
+            };
+            let at = lit_defs.len() + r.usize(m.cons.len() - lit_defs.len() + 1);
+            m.cons.insert(at, extra);
+        }
+        config::LIT_DEFS.with(|d| *d.borrow_mut() = lit_defs.clone());
         let opt = if r.chance(1, 3) {
-            Some(OptSpec { maximise: r.chance(1, 2), lus: r.chance(1, 4), objective: View::of(r.usize(m.vars.len())) })
+            // the objective is not a literal of a predicate: its bound would be concluded as an atom over
+            // the predicate's variable, which the checker cannot relate to the objective
+            let mut ov = r.usize(m.vars.len());
+            if lit_defs.iter().any(|(ri, _)| *ri == ov) {
+                ov = 0;
+            }
+            Some(OptSpec { maximise: r.chance(1, 2), lus: r.chance(1, 4), objective: View::of(ov) })
         } else {
             None
         };
@@ -543,8 +604,12 @@ fn mode_proof(args: &Args) {
         );
         run_case(&id, &desc, |out| {
             kinds_meta(&m, out);
+            if !lit_defs.is_empty() {
+                out.meta(format!("literals-of-predicates {}", lit_defs.len()));
+            }
             scen_proof(&m, &setup, kind, opt.as_ref(), &dir, out)
         });
+        config::LIT_DEFS.with(|d| d.borrow_mut().clear());
     }
     if !args.kv.contains_key("dir") {
         let _ = std::fs::remove_dir_all(&dir);
@@ -623,9 +688,26 @@ fn mode_one(args: &Args) {
                 });
                 let mut setup2 = Setup { opts: setup.opts.clone(), bspec: setup.bspec.clone(), style_seed: setup.style_seed };
                 setup2.opts.resolver_uip = true;
+                // --litdefs N: the first N constraints define literals of predicates (as mode `proof` writes them)
+                let n_defs: usize = args.kv.get("litdefs").map(|s| s.parse().unwrap()).unwrap_or(0);
+                let defs: Vec<(usize, Atom)> = m.cons[..n_defs]
+                    .iter()
+                    .map(|c| match c {
+                        Cons::Reif(Atom::Ge(ri, 1), inner) => match &**inner {
+                            Cons::LinLe(ts, c) if ts.len() == 1 && ts[0].scale == -1 => (*ri, Atom::Ge(ts[0].var, -c)),
+                            Cons::LinLe(ts, c) if ts.len() == 1 && ts[0].scale == 1 => (*ri, Atom::Le(ts[0].var, *c)),
+                            Cons::LinEq(ts, c) if ts.len() == 1 && ts[0].scale == 1 => (*ri, Atom::Eq(ts[0].var, *c)),
+                            Cons::LinNe(ts, c) if ts.len() == 1 && ts[0].scale == 1 => (*ri, Atom::Ne(ts[0].var, *c)),
+                            _ => panic!("--litdefs: not a definition"),
+                        },
+                        _ => panic!("--litdefs: not a definition"),
+                    })
+                    .collect();
+                config::LIT_DEFS.with(|d| *d.borrow_mut() = defs);
                 let dir = std::path::PathBuf::from(format!("/verif/.work/proofs-{}", std::process::id()));
                 std::fs::create_dir_all(&dir).unwrap();
                 scen_proof(&m, &setup2, kind, opt.as_ref(), &dir, out);
+                config::LIT_DEFS.with(|d| d.borrow_mut().clear());
                 let _ = std::fs::remove_dir_all(&dir);
             }
             "assume" => {
